@@ -503,8 +503,7 @@ Qed.
 Lemma seq_filter_same (c : ctx T) t f c' v : seq_filter c t f = (c', v) -> same_s c c'.
 Proof.
   unfold seq_filter. intros H.
-  destruct (f_seq f <? rseq c); [destruct (post_hvr c && is_client c) |
-    destruct (rseq c <? f_seq f); [destruct (post_hvr c && is_client c) |]];
+  repeat match type of H with (if ?b then _ else _) = _ => destruct b end;
     inversion H; subst; same_tac.
 Qed.
 
